@@ -128,6 +128,7 @@ class UnitResult(object):
         self.seconds = 0.0
         self.solver_checks = 0
         self.solver_seconds = 0.0
+        self.fd_points = 0
         self.crash = None
 
     def to_json(self):
@@ -142,6 +143,7 @@ class UnitResult(object):
                     "model": o.model,
                     "seconds": round(o.seconds, 4),
                     "kind": o.kind,
+                    "backend": getattr(o, "backend", None),
                 }
                 for o in self.obligations
             ],
@@ -149,6 +151,7 @@ class UnitResult(object):
             "seconds": round(self.seconds, 3),
             "solver_checks": self.solver_checks,
             "solver_seconds": round(self.solver_seconds, 3),
+            "fd_points": self.fd_points,
             "crash": self.crash,
         }
 
@@ -242,6 +245,7 @@ def verify(contract, case=None, max_seconds=None):
     res.seconds = time.time() - t0
     res.solver_checks = engine.stats.checks
     res.solver_seconds = engine.stats.seconds
+    res.fd_points = int(engine.stats.fd.get("points", 0))
     return res
 
 
